@@ -83,7 +83,7 @@ def plain(v):
     m = import_repo()
     from dissect.cstruct.types.structure import UnionProxy
 
-    if isinstance(v, UnionProxy):
+    while isinstance(v, UnionProxy):
         v = v.__target__
     if isinstance(v, m.Structure):
         out = {}
